@@ -37,6 +37,8 @@ ADDV = z3.Function('ADDV', VL, VL, VL)                    # a + b on opaque floa
 LEQV = z3.Function('LEQ', VL, VL, z3.BoolSort())          # a <= b on opaque float values (uninterpreted: only congruence is used)
 OFNUM = z3.Function('OFNUM', z3.RealSort(), VL)           # a tracked number read as a float
 MINOBJ = z3.Function('MINOBJ', z3.IntSort(), VL)          # model.min_objective_value() = max(abs_tol, rel_tol * objbeg) of model version v
+KOPT = z3.Function('KOPT', z3.IntSort(), z3.IntSort())     # model.kopt of model version v (slot of the incumbent record)
+POSV = z3.Function('POS', VL, z3.BoolSort())              # v > 0.0 on an opaque float
 UNSC = z3.RecFunction('UNSC', VL, z3.IntSort(), VL)       # columns 0..i-1 un-scaled, in order
 _j, _i = z3.Const('j_', VL), z3.Int('i_')
 z3.RecAddDefinition(UNSC, [_j, _i], z3.If(_i <= 0, _j, COLDIV(UNSC(_j, _i - 1), _i - 1)))
@@ -94,7 +96,9 @@ class LedgerDomain(ParamsMixin, Domain):
                              'lastslot': 'int', 'proj': 'bool', 'nptver': 'int',
                              'ent': 'val', 'entjac': 'val', 'best': 'val', 'bestjac': 'val', 'rows': 'int',
                              # "the best objective value found so far is finite": nothing in this domain establishes it (floats are havoc); C10 (f)
-                             'objfinite': 'bool'}
+                             'objfinite': 'bool',
+                             # C04 (ii): the pending trial point was accepted as an improvement (ratio > 0); the model version whose incumbent record was offered to save_point
+                             'better': 'bool', 'savedver': 'int'}
         fs = self.field_shapes
         fs[('Controller', 'nf')] = 'int'
         fs[('Controller', 'nx')] = 'int'
@@ -108,6 +112,8 @@ class LedgerDomain(ParamsMixin, Domain):
             'A-callback: objfun/h/prox_uh/nsamples/projections do not mutate solver objects or re-enter dfols; nsamples returns an int',
             'A-resolve: method calls are resolved by name over the package classes',
             'A-lib: NumPy/SciPy calls have no effect on the tracked (integer/ghost) state',
+            'A-M: 0 <= model.kopt < model.npt() whenever read (class invariant INV_shape of Model, proved on the real Model methods in bundle model)',
+            'N-ratio: ratio > 0 at the trust-region update means the averaged trial objective is below the incumbent (sign of actual/pred with pred >= 0: exact in IEEE-754; pred < 0 exits before the update)',
             'floats and arrays are havoc in this domain (over-approximation): valid for arbitrary residual values',
             'A-real (one identity): model.as_absolute_coordinates(x - model.xbase) == x for an x that is itself an output of as_absolute_coordinates '
             '(real arithmetic and idempotent clip without projections; with projections this is numeric assumption N4: Dykstra re-applied to its own '
@@ -116,9 +122,11 @@ class LedgerDomain(ParamsMixin, Domain):
         self.builtins['remove_scaling'] = lambda eng, n, a, k, st: RS(a[0]) if isval(a[0]) else UNK
         self.spec_funcs = {'UNSC': UNSC, 'COLDIV': COLDIV, 'EX': EX, 'ER': ER, 'EO': EO, 'ENS': ENS, 'EEN': EEN, 'EJ': EJ, 'EJN': EJN, 'RS': RS, 'ABS': ABS, 'SUBBASE': SUBBASE, 'ROW': ROW, 'MEANV': MEANV, 'REC_X': REC_X, 'REC_R': REC_R, 'REC_NS': REC_NS,
                            'REC_EN': REC_EN, 'NPT': NPT,
-                           'SUMSQ': SUMSQV, 'HVAL': HVAL, 'ADDV': ADDV, 'LEQ': LEQV, 'OFNUM': OFNUM, 'MINOBJ': MINOBJ}
+                           'SUMSQ': SUMSQV, 'HVAL': HVAL, 'ADDV': ADDV, 'LEQ': LEQV, 'OFNUM': OFNUM, 'MINOBJ': MINOBJ, 'KOPT': KOPT, 'POS': POSV}
 
     def name_shape(self, name):
+        if name == 'ratio':
+            return 'val'
         if name in ('x', 'xnew', 'new_point', 'rvec_list', 'base_shift', 'x0', 'r0_avg', 'rvec', 'obj', 'obj0_avg', 'xmin', 'rmin', 'objmin',
                     'xmin2', 'rmin2', 'objmin2'):
             return 'val'
@@ -235,6 +243,11 @@ class LedgerDomain(ParamsMixin, Domain):
                 return st.heap[('G', 'proj')]
             if attr == 'xbase':
                 return BaseTok(st.heap[('G', 'gen')])
+            if attr == 'kopt':
+                # A-M (class invariant INV_shape, proved on every Model method in bundle model): 0 <= kopt < npt()
+                k = KOPT(st.heap[('G', 'mver')])
+                st.assume(z3.And(k >= 0, k < NPT(st.heap[('G', 'nptver')])))
+                return k
         return Domain.load_attr(self, eng, base, attr, st, node)
 
     def binop(self, op, a, b, st, node=None):
@@ -259,6 +272,9 @@ class LedgerDomain(ParamsMixin, Domain):
     def compare(self, op, a, b, st, node=None):
         if isval(a) and isval(b) and op in ('==', '!='):
             return (a == b) if op == '==' else (a != b)
+        if op == '>' and isval(a) and node is not None and isinstance(node, ast.Compare) and len(node.comparators) == 1 and \
+                isinstance(node.comparators[0], ast.Constant) and node.comparators[0].value in (0, 0.0) and not isinstance(node.comparators[0].value, bool):
+            return POSV(a)
         if op == '<=' and isval(a) and (isval(b) or isint(b) or isreal(b)):
             return LEQV(a, b if isval(b) else OFNUM(z3.ToReal(b) if isint(b) else b))
         return Domain.compare(self, op, a, b, st, node)
